@@ -18,6 +18,7 @@ __all__ = [
 
 not_loaded = object()
 yaml_default_loader = None
+yaml_default_dumper = None
 
 
 def load_basic(value):
@@ -80,6 +81,27 @@ def get_yaml_default_loader():
 
     yaml_default_loader = DefaultLoader
     return yaml_default_loader
+
+
+def get_yaml_default_dumper():
+    global yaml_default_dumper
+    if yaml_default_dumper:
+        return yaml_default_dumper
+
+    import yaml
+
+    class DefaultDumper(yaml.SafeDumper):
+        pass
+
+    # Use the float resolver of the default loader, so that strings it would load as float, e.g. 1e3, get quoted
+    float_tag = "tag:yaml.org,2002:float"
+    resolvers = {k: [(t, r) for t, r in v if t != float_tag] for k, v in yaml.SafeDumper.yaml_implicit_resolvers.items()}
+    for first_letter, mappings in get_yaml_default_loader().yaml_implicit_resolvers.items():
+        resolvers.setdefault(first_letter, []).extend((t, r) for t, r in mappings if t == float_tag)
+    DefaultDumper.yaml_implicit_resolvers = resolvers
+
+    yaml_default_dumper = DefaultDumper
+    return yaml_default_dumper
 
 
 def yaml_load(stream):
@@ -220,7 +242,7 @@ dump_json_kwargs = {
 def yaml_dump(data):
     import yaml
 
-    return yaml.safe_dump(data, **dump_yaml_kwargs)
+    return yaml.dump(data, Dumper=get_yaml_default_dumper(), **dump_yaml_kwargs)
 
 
 def yaml_comments_dump(data, parser):
